@@ -100,6 +100,14 @@ def dir_flags(d, sample, lang):
         if d == REPO or len(d) <= len(REPO):
             raise AnalysisBroken("no Makefile at or above %s (tree not configured?)" % srcdir)
         d = os.path.dirname(d)
+    # the dry run only reads this Makefile: its result is re-used while the Makefile's content is unchanged
+    disk = _flag_disk()
+    dk = "%s|%s" % (srcdir, lang)
+    mk = sha1(os.path.join(d, "Makefile"))
+    hit = disk.get(dk)
+    if hit and hit.get("mk") == mk and hit.get("cwd") == d:
+        _flag_memo[key] = (d, hit["flags"])
+        return _flag_memo[key]
     sample = os.path.relpath(os.path.join(srcdir, sample), d)
     base = os.path.splitext(sample)[0]
     obj = base + (".lo" if os.path.exists(os.path.join(d, base + ".lo")) else ".o")
@@ -152,7 +160,34 @@ def dir_flags(d, sample, lang):
         i += 1
     flags = [("-std=gnu++17" if lang == "c++" else "-std=gnu11")] + flags + ["-UNDEBUG"]
     _flag_memo[key] = (d, flags)
+    disk[dk] = {"mk": mk, "cwd": d, "flags": flags}
+    _flag_disk_save()
     return (d, flags)
+
+
+_flag_disk_cache = None
+
+
+def _flag_disk():
+    global _flag_disk_cache
+    if _flag_disk_cache is None:
+        try:
+            _flag_disk_cache = json.load(open(os.path.join(CACHE, "flags.json")))
+        except Exception:
+            _flag_disk_cache = {}
+    return _flag_disk_cache
+
+
+def _flag_disk_save():
+    if OVERLAY:
+        return
+    try:
+        os.makedirs(CACHE, exist_ok=True)
+        tmp = os.path.join(CACHE, "flags.json.%d" % os.getpid())
+        json.dump(_flag_disk_cache, open(tmp, "w"))
+        os.replace(tmp, os.path.join(CACHE, "flags.json"))
+    except OSError:
+        pass
 
 
 def unit_flags(src):
